@@ -810,25 +810,34 @@ def run(ctx):
         cdone += [s for s in part if s["dom"] and json.dumps([s["arr"], s["tol"]], sort_keys=True) not in seen]
     if 10 * ctx.cov["compress_cases_outside_domain"] > len(cdone):
         raise Vacuity(f"MCCompress: {ctx.cov['compress_cases_outside_domain']} enumerated cases outside the domain")
-    per_ckb, per_fam = {}, {}
+    per_ckb, per_fam, per_sit = {}, {}, {}
     for s in cdone:
         per_fam[s["fam"]] = per_fam.get(s["fam"], 0) + 1
         for k in s["kb"]:
             per_ckb[k] = per_ckb.get(k, 0) + 1
+        for k in s["sit"]:
+            per_sit[k] = per_sit.get(k, 0) + 1
     ctx.cov["compress_cases"] = len(cdone)
     ctx.cov["compress_cases_per_family"] = per_fam
     ctx.cov["compress_cases_per_kb_class"] = per_ckb
+    ctx.cov["compress_cases_per_situation"] = per_sit
     ctx.cov["compress_cases_decimals_range"] = [f([s["dstar"] for s in cdone if s["fam"] == "sci" and s["impl"]["fits"]])
                                                 for f in (min, max)]
-    if set(per_fam) != {"sci", "int"} or not {"CompressDecimalsUnbounded", "CompressFactorUnserialisable",
-                                              "CompressFloat32RangeCheck"} <= set(per_ckb):
-        raise Vacuity(f"compress() families / recorded classes not all enumerated: {per_fam} {per_ckb}")
+    # the situations in which defects of the float branch were found (MCCompress.tla Situations) must be
+    # enumerated whether or not the defect is still there; the recorded classes only while they are not repaired
+    # (CompressDecimalsUnbounded, CompressFactorUnserialisable, CompressFloat32RangeCheck: all three repaired,
+    # KB_SciUnbounded = KB_SciFactor = KB_SciFloat32Range = FALSE, so per_ckb is expected to be empty)
+    if set(per_fam) != {"sci", "int"} or not {
+            "DecimalsUnreachable", "FactorBeyondUint64", "Float32Boundary"} <= set(per_sit):
+        raise Vacuity(f"compress() families / situations / recorded classes not all enumerated: "
+                      f"{per_fam} {per_sit} {per_ckb}")
     # classes of the model's float branch that the enumeration must contain (decided by the specification,
     # not by what the implementation did): many decimals with a lossy fixed-point result, negative decimals,
     # a scaled value beyond int32 on the negative side only / the positive side only (fall-back)
     sci = [s for s in cdone if s["fam"] == "sci" and s["impl"]["oc"] == "ok" and len(s["arr"]["v"]) > 1]
     fixed = [s for s in sci if s["impl"]["fits"]]
-    fallback = [s for s in sci if not s["impl"]["fits"] and all(x["k"] == "num" for x in s["arr"]["v"])]
+    fallback = [s for s in sci if not s["impl"]["fits"] and all(x["k"] == "num" for x in s["arr"]["v"])
+                and "DecimalsUnreachable" not in s["sit"]]
 
     def beyond(s, sign):      # SciOverflow, re-stated only to count the classes
         return any(x["m"] * sign > 0 and x["p"] + s["dstar"] >= 1 and
@@ -840,7 +849,9 @@ def run(ctx):
                "fixed_point_negative_decimals": sum(1 for s in fixed if s["dstar"] < 0),
                "fallback_negative_side_only": sum(1 for s in fallback if beyond(s, -1) and not beyond(s, 1)),
                "fallback_positive_side_only": sum(1 for s in fallback if beyond(s, 1) and not beyond(s, -1)),
-               "fallback_non_finite": sum(1 for s in sci if any(x["k"] != "num" for x in s["arr"]["v"]))}
+               "fallback_non_finite": sum(1 for s in sci if any(x["k"] != "num" for x in s["arr"]["v"])),
+               "fallback_decimals_unreachable": sum(1 for s in sci if "DecimalsUnreachable" in s["sit"]
+                                                    and not s["impl"]["fits"] and len(s["impl"]["ys"]) == 1)}
     ctx.cov["compress_model_classes"] = classes
     if min(classes.values()) == 0:
         raise Vacuity(f"MCCompress: a class of the float branch is not enumerated: {classes}")
@@ -930,6 +941,10 @@ def run(ctx):
     ctx.cov["compressx_decimals_observed_range"] = [min([e["d"] for e in xev if e["hasFP"]] + [0]),
                                                     max([e["d"] for e in xev if e["hasFP"]] + [0])]
     ctx.cov["compressx_fixed_point_chosen"] = sum(1 for e in xev if e["hasFP"])
+    # measured, not required (compress() is free to prefer raw bytes): results with a factor 10^d >= 2^64
+    # (handed over as a float) that went through msgpack
+    ctx.cov["compressx_fixed_point_20_or_more_decimals_written"] = sum(
+        1 for e in xev if e["hasFP"] and e["d"] >= 20 and e["packed"] == "ok")
     if set(kinds) != {"chain", "compress", "compressx", "file"} or min(
             ctx.cov["s3_outcomes"][oc] for oc in ("ok", "Rejected")) == 0:
         raise Vacuity(f"S3 did not exercise every event kind / outcome: {kinds} {ctx.cov['s3_outcomes']}")
@@ -987,5 +1002,5 @@ def run(ctx):
 MANIFEST = {
     "technique": "TLA+ specification of the seven BinaryCIF encodings, their chains, BinaryCIFData serialisation and the candidate chains of compress() (specs/C05) model-checked by TLC; every enumerated (chain, array) case executed through BinaryCIFData.serialize -> msgpack -> deserialize; recorded random arrays, chains, compress() calls and files re-computed by TLC",
     "level_text": "TLC enumerates integer arrays of every 8/16-bit type over their boundary values (length <=2, thorough 3, plus runs) and 32-bit arrays, float32/float64 arrays over dyadic values, NaN, infinities and large integers, and string arrays with empty and duplicate strings, each under the twelve chains compress() tries and explicit-parameter variants (narrow target types, wrong sizes, unsigned packing of negatives, given origins, fixed point with 4 factors, interval quantisation with 3 grids, string arrays with nested chains), and checks that the code-shaped model returns the array exactly / within half a fixed-point step / within the documented quantisation bin whenever the representation can hold it and refuses it otherwise, except in the two recorded classes; every case is then executed against the real encoders through msgpack and compared with the specification's outcome and acceptance interval. compress() is also enumerated as an operation: float32/float64 arrays (length <=2, thorough 3, optionally with a repeated tail) over decimal floats of every magnitude class from 1e-306 to 1e300 (more than 15 decimals, fractions, coordinates, the int32 boundary of the scaled values on both sides, one-sided overflow, zero, NaN, infinities) x tolerances 1e-1..1e-6 and int32 arrays on the integer type boundaries; TLC checks that the modelled search for the decimals + int32 range check + lossless fall-back stays inside the relative tolerance, every case is executed through compress -> serialize -> (msgpack) -> deserialize and judged by TLC. Random arrays up to 60 elements of all dtypes with random chains and parameters, compress() with tolerances 1e-1..1e-6 (fixed-point universe and decimal floats of any magnitude) and whole files with masks are recorded and re-computed by TLC.",
-    "level_note": "Bounded: exhaustive only for arrays of <=2 (thorough 3) elements over boundary value sets; longer arrays only through recorded runs. Floats are restricted to dyadic values on which float arithmetic is exact (plus NaN/inf/large integers); fixed-point factors <=1000. Delta / IntegerPacking arithmetic crossing +-2^31, UINT32 values >= 2^31 and int64 input are not decided (TLC integers are 32 bit). The encoded byte form is compared with the model as a diagnostic only. Recorded defects (unchecked float->int32 cast in FixedPoint and - fixed - through compress(), IntervalQuantization outside [min,max], compress(): endless search for the decimals beyond the float range, factor 10^d >= 2^64 not serialisable, float32 range check at 2^31) are accepted only in their predicted shape. compress() of floats is judged on decimal floats where float rounding noise cannot change the number of decimals chosen (other arrays are skipped, counted); which of fixed point / raw bytes compress() picks is not modelled. Trusted: TLC, the TLA+ value parser, the float<->fixed-point projection, numpy, msgpack.",
+    "level_note": "Bounded: exhaustive only for arrays of <=2 (thorough 3) elements over boundary value sets; longer arrays only through recorded runs. Floats are restricted to dyadic values on which float arithmetic is exact (plus NaN/inf/large integers); fixed-point factors <=1000. Delta / IntegerPacking arithmetic crossing +-2^31, UINT32 values >= 2^31 and int64 input are not decided (TLC integers are 32 bit). The encoded byte form is compared with the model as a diagnostic only. Recorded defects (unchecked float->int32 cast in FixedPoint, IntervalQuantization outside [min,max]; both in encoding.pyx) are accepted only in their predicted shape; the four defects of compress() (unchecked cast reached through compress(), endless search for the decimals beyond the float range, factor 10^d >= 2^64 not serialisable, float32 range check at 2^31) are repaired in /repo, their predicates are FALSE and the situations they occurred in are still required to be enumerated. compress() of floats is judged on decimal floats where float rounding noise cannot change the number of decimals chosen (other arrays are skipped, counted); which of fixed point / raw bytes compress() picks is not modelled. Trusted: TLC, the TLA+ value parser, the float<->fixed-point projection, numpy, msgpack.",
 }
